@@ -8,6 +8,7 @@ import (
 
 type deferRec struct {
 	call *ast.CallExpr
+	cond *Term // nil: registered on every path that reaches here; otherwise the condition under which it was registered
 }
 
 type State struct {
@@ -162,17 +163,58 @@ func (x *Exec) merge(states ...*State) *State {
 		}
 		n.heap[k] = x.vc.nameV(k, acc)
 	}
-	// defers must agree
-	n.defers = live[0].defers
+	// deferred calls: the common prefix stays as it is; a call registered on some of the joined paths only
+	// (a defer inside an if or a loop body) is kept with the condition of the path that registered it
 	for _, s := range live[1:] {
-		if len(s.defers) != len(n.defers) {
+		if len(s.defers) != len(live[0].defers) {
 			panic("merge: defer stacks differ in depth")
 		}
-		for i := range s.defers {
-			if len(s.defers[i]) != len(n.defers[i]) {
-				panic(fmt.Sprintf("merge: defer lists differ (%d vs %d) — unsupported control flow", len(s.defers[i]), len(n.defers[i])))
+	}
+	n.defers = make([][]*deferRec, len(live[0].defers))
+	for fi := range live[0].defers {
+		same := true
+		for _, s := range live[1:] {
+			if len(s.defers[fi]) != len(live[0].defers[fi]) {
+				same = false
+				break
+			}
+			for j := range s.defers[fi] {
+				if s.defers[fi][j] != live[0].defers[fi][j] {
+					same = false
+				}
 			}
 		}
+		if same {
+			n.defers[fi] = live[0].defers[fi]
+			continue
+		}
+		// longest common prefix
+		k := 0
+		for {
+			ok := true
+			for _, s := range live {
+				if k >= len(s.defers[fi]) || s.defers[fi][k] != live[0].defers[fi][k] {
+					ok = false
+					break
+				}
+			}
+			if !ok {
+				break
+			}
+			k++
+		}
+		out := append([]*deferRec(nil), live[0].defers[fi][:k]...)
+		for _, s := range live {
+			for _, d := range s.defers[fi][k:] {
+				c := s.pc
+				if d.cond != nil {
+					c = tAnd(*d.cond, s.pc)
+				}
+				c = x.vc.name("defercond", c)
+				out = append(out, &deferRec{call: d.call, cond: &c})
+			}
+		}
+		n.defers[fi] = out
 	}
 	for k, v := range live[0].locks {
 		n.locks[k] = v
